@@ -28,6 +28,23 @@ CLAIMED = {
         "Reference = the rules in the property statement; alphabet of atoms concretised one-to-one; acyclic libraries only; parser functions limited to #if/#ifeq/#switch.",
         "DESIGN.md §5 C04",
     ),
+    "C16": (
+        ["Expander", "Gen_Expander"],
+        "TLA+ transcription of expand_recurse/expand_args/expand_parserfn/call_lua_sandbox with every expand_stack push/pop site explicit (state-threading twin); "
+        "TLC checks StackRestored on every (page, library, 16 option combinations); each case replayed on the real code incl. 300 repeated calls; push/pop event traces compared",
+        "Bounded-exhaustive: TLC evaluates the twin on every case of the universe and checks that the expansion path is restored (the old early-return design is shown to violate it); "
+        "the real expand() is run on every case, with Lua (offline stand-ins), failing Lua, time-outs and loops, and repeated 300x per page without start_page.",
+        "Lua module behaviour (echo/err/pre/tpl/loop) is assumed as modelled; ustring/libraryUtil replaced by stand-ins; labels of the path are internal (event mismatches are DRIFT).",
+        "DESIGN.md §5 C16",
+    ),
+    "C13": (
+        ["Expander", "Gen_Expander"],
+        "same expander twin; TLC enumerates pages x need_pre_expand sets x templates_to_expand/not_expand subsets x switches x hook policies, checks 'nothing selected => unchanged' and hook-count laws; "
+        "each case replayed on the real expand() comparing the returned text and the exact hook call sequence",
+        "Bounded-exhaustive over selections and hook policies (65k cases quick, 200k thorough): real output and the arguments the hooks receive must equal the twin's prediction.",
+        "Marker strings are non-empty and not list markers; 'unchanged' is read modulo blanks around the first argument of a disabled parser function.",
+        "DESIGN.md §5 C13",
+    ),
 }
 NOT_YET = "check not built yet in this round (see DESIGN.md §10 build order); nothing is claimed for it"
 
